@@ -43,6 +43,12 @@ def one_case(rng, tier):
     prog = g.program()
     prods = g.producers(prog, max_total=20)
     case = {'prog': prog, 'producers': prods, 'awaiting': rng.random() < 0.7}
+    if rng.random() < 0.12:
+        for s_ in case['prog']['nodes']:
+            if s_['op'] == 'sink' and s_.get('kind') == 'sync':
+                # a plain function that takes its time on the loop thread: no timer can fire meanwhile
+                s_['kind'] = 'sync_block'
+                s_['svc'] = [rng.choice([0, 0, 0.25, 0.75, 1.5]) for _ in range(3)]
     if rng.random() < 0.2:
         case['t0'] = 1.7e9          # a clock that reads like time.time(), not like a stopwatch
     return case
